@@ -291,7 +291,8 @@ def run(ctx):
         return out
     limit = sum(26 ** j for j in range(1, K + 1))
     enc_paths = paths_of(repo, f_enc, while_unroll=K + 1, asserts='ignore')
-    pv, pc = f_enc.params()[0], f_enc.params()[1]
+    from ..sim import _canon_params as _cpar
+    pv, pc = (_cpar(f_enc) or f_enc.params())[:2]
     bad_enc = None
     n_enc = 0
     samples = range(limit) if limit <= 800 else list(range(0, 800)) + list(range(limit - 60, limit)) + list(range(800, limit, 97))
@@ -318,7 +319,7 @@ def run(ctx):
     bad_dec = None
     n_dec = 0
     import itertools as _it
-    pt = f_dec.params()[0]
+    pt = (_cpar(f_dec) or f_dec.params())[0]
     for p in dec_paths:
         term = _deep_ast(p.outcome[1])
         elems = sorted(set(re.findall(r'<elem(\d+) of ([^<>]+)>', norm(term))))
